@@ -143,7 +143,11 @@ def main():
     fams.append(("quant", "EQLCore_gen_quant.cfg" if thorough else "EQLCore_gen_quant_q.cfg", 400))
     fams.append(("quant", "EQLCore_gen_quant_d1.cfg", 100))          # every quantifier condition of depth 1
     fams.append(("poset", "EQLCore_gen_poset.cfg" if thorough else "EQLCore_gen_poset_q.cfg", 350))
+    fams.append(("optional", "EQLCore_gen_optional.cfg" if thorough else "EQLCore_gen_optional_q.cfg", 200))    # an Optional attribute holding None
     fams.append(("logic_d3", "EQLCore_gen_logic_d3.cfg" if thorough else "EQLCore_gen_logic_d3_q.cfg", 2000 if thorough else 250))
+    if thorough:
+        for fam in ("access", "logic6", "poset"):
+            fams.append((fam, f"EQLCore_gen_{fam}_d3.cfg", 1000))        # depth 3 in the other vocabularies
     cases = []
     for fam, cfg, minimum in fams:
         for i, c in enumerate(conditions(ctx, cfg, minimum)):
